@@ -79,9 +79,26 @@ def run(ctx):
                     ctx.ob("R10.6", "instantiate writes no stake", not sw and not cl, trivial=True)
                     continue
                 if variant not in ("Bond", "Receive", "Unbond", "Claim"):
-                    ctx.ob("R10.6", key + "/no stake or claim change", not sw and not cl, sites=[e.site for _, e in sw + cl],
-                           detail="%s changes STAKE/CLAIMS" % variant, trivial=True)
-                    continue
+                    # a message the table does not know: judged by what it does.  Lowering the caller's stake is an unbond of that
+                    # amount (same rules: exact, checked, claim of the same amount after the delay); releasing claims is a claim;
+                    # anything else that touches STAKE / CLAIMS has no rule that could make it sound
+                    kind_ = None
+                    if len(sw) == 1 and all(x.name == "Claims::create_claim" for _, x in cl):
+                        d0 = cell_delta(sw[0][1], path=p)
+                        if d0.nf is not None and not d0.nf.inexact and not d0.nf.const and len(d0.nf.atoms) == 1 and list(d0.nf.atoms.values()) == [-1]:
+                            kind_ = ("unbond", list(d0.nf.atoms)[0])
+                    elif not sw and cl and all(x.name == "Claims::claim_tokens" for _, x in cl):
+                        kind_ = ("claim", None)
+                    if kind_ is None:
+                        ctx.ob("R10.6", key + "/no stake or claim change", not sw and not cl, sites=[e.site for _, e in sw + cl],
+                               detail="%s changes STAKE/CLAIMS in a way that is neither an unbond of the caller's own stake nor a claim" % variant,
+                               trivial=True)
+                        continue
+                    if kind_[0] == "unbond":
+                        check_unbond(ctx, p, key, sw, cl, cfg, amount=kind_[1])
+                    else:
+                        check_claim(ctx, p, key, sw, cl, cfg, CLAIMS)
+                    variant_kind = kind_[0]
                 if variant in ("Bond", "Receive"):
                     n_bond += 1
                     check_bond(ctx, p, key, variant, sw, cl, cfg)
@@ -208,8 +225,8 @@ def check_bond(ctx, p, key, variant, sw, cl, cfg):
     ctx.ob("R10.2", key + "/bond", prob is None, detail=prob, sites=[e.site], sample={"delta": d.nf.show(), "key": show(e.key)[:80]})
 
 
-def check_unbond(ctx, p, key, sw, cl, cfg):
-    amount = ("vfield", ("param", "msg"), "Unbond", "tokens")
+def check_unbond(ctx, p, key, sw, cl, cfg, amount=None):
+    amount = amount or ("vfield", ("param", "msg"), "Unbond", "tokens")
     prob = None
     if len(sw) != 1:
         prob = "%d STAKE writes on an unbond path" % len(sw)
@@ -228,7 +245,9 @@ def check_unbond(ctx, p, key, sw, cl, cfg):
     if good:
         a = cl[0][1].args
         rel = ("call", "cw_utils::Duration::after", (("field", cfg, "unbonding_period"), BLOCK)) if cfg else None
-        good = a[-3] == SENDER and a[-2] == amount and a[-1] == rel
+        na = nf(a[-2])
+        same_amount = a[-2] == amount or (na.atoms == {amount: 1} and not na.const and not na.inexact)
+        good = a[-3] == SENDER and same_amount and a[-1] == rel
         why = "claim created as (%s, %s, %s), expected (info.sender, unbonded amount, unbonding_period.after(env.block))" % (
             show(a[-3])[:60], show(a[-2])[:60], show(a[-1])[:120])
     ctx.ob("R10.3", key + "/claim created", good, detail=why, sites=[e.site for _, e in cl], sample={"claim": show(("tuple", cl[0][1].args[-3:]))[:200] if cl else None})
